@@ -72,6 +72,11 @@ claim("C02",
       "The preamble (JSON dump) path and real files are not covered here. tidwall/resp is modelled by a strict RESP parser. Bounds in the evidence assumptions.",
       "DESIGN.md C02")
 
+claim("C05",
+      "Two real commands run as two threads of a cooperative scheduler through the whole of handleCommand; every interleaving of their keyspace calls (scheduling point in front of each keysExist/getValues/getExpiry/setValues/setExpiry/deleteKey, schedule choices are solver-named inputs) must give replies and a final dataset equal to one of the two serial orders, which the same real code computes on fresh servers. Covers symbolic-operand pairs (INCR, APPEND, LPUSH/RPUSH, SET NX, SADD/SREM, HSET/HDEL, GETDEL/SET), a pair matrix over the string/list/hash/set/sorted-set families plus the generic commands, all-or-nothing MSET under a symbolic memory limit in every write order, and lock-order freedom: 12 entry points that take several of the server's locks, pairwise, pre-empted at mutex acquisitions with real mutex/RWMutex exclusion modelled, deadlock and busy-wait livelock reported.",
+      "Two threads; data races inside one keyspace call and below (map/slice races under the race detector) are outside the model; pre-emption at locks is context-bounded; native confirmation of a deadlock is a free-running stress (timeout = hang). Bounds in the evidence assumptions.",
+      "DESIGN.md C05")
+
 # every property without a claim is listed as not applicable (yet) with its reason
 NA_REASONS = {}
 for n in range(1, 21):
